@@ -289,6 +289,19 @@ func extractFacts(repo string) (string, error) {
 		{"failsafegrpc/client.go", "", "NewUnaryClientInterceptorWithExecutor"}, {"failsafegrpc/server.go", "", "NewUnaryServerInterceptorWithExecutor"},
 		{"failsafegrpc/server.go", "", "NewServerInHandleWithExecutor"},
 		{"timeout/timeout.go", "config", "Build"}, {"fallback/fallback.go", "config", "Build"},
+		// the breaker's small state and statistics functions the sequential breaker model transcribes
+		{"circuitbreaker/circuitstats.go", "countingStats", "recordFailure"}, {"circuitbreaker/circuitstats.go", "countingStats", "recordSuccess"},
+		{"circuitbreaker/circuitstats.go", "countingStats", "reset"}, {"circuitbreaker/circuitstats.go", "timedStats", "recordFailure"},
+		{"circuitbreaker/circuitstats.go", "timedStats", "recordSuccess"}, {"circuitbreaker/circuitstats.go", "timedStats", "reset"},
+		{"circuitbreaker/circuitstats.go", "stat", "reset"}, {"circuitbreaker/circuitstats.go", "stat", "remove"},
+		{"circuitbreaker/circuitstats.go", "", "newStats"},
+		{"circuitbreaker/circuitstates.go", "closedState", "tryAcquirePermit"}, {"circuitbreaker/circuitstates.go", "closedState", "remainingDelay"},
+		{"circuitbreaker/circuitstates.go", "openState", "checkThresholdAndReleasePermit"}, {"circuitbreaker/circuitstates.go", "halfOpenState", "remainingDelay"},
+		{"circuitbreaker/circuitstates.go", "", "newOpenState"},
+		{"circuitbreaker/circuitbreaker.go", "circuitBreaker", "tryAcquirePermit"}, {"circuitbreaker/circuitbreaker.go", "circuitBreaker", "open"},
+		{"circuitbreaker/circuitbreaker.go", "circuitBreaker", "close"}, {"circuitbreaker/circuitbreaker.go", "circuitBreaker", "halfOpen"},
+		{"circuitbreaker/circuitbreaker.go", "circuitBreaker", "Reset"}, {"circuitbreaker/circuitbreaker.go", "circuitBreaker", "IsOpen"},
+		{"circuitbreaker/circuitbreaker.go", "circuitBreaker", "IsHalfOpen"}, {"circuitbreaker/circuitbreaker.go", "circuitBreaker", "IsClosed"},
 	} {
 		key := strings.TrimSuffix(filepath.Base(e[0]), ".go") + ":" + e[1] + "." + e[2]
 		if fd := fx.fn(e[0], e[1], e[2]); fd != nil {
